@@ -380,6 +380,14 @@ impl<'a, A: AcceptableMasterList, C: Clock, F: Filter, R: Rng, S: PtpInstanceSta
 
     /// Handle the announce receipt timer going off
     pub fn handle_announce_receipt_timer(&mut self) -> PortActionIterator<'_> {
+        // A port disabled by a peer delay fault only recovers through a clean
+        // peer delay exchange, not because announce messages went missing. Keep
+        // the timer running so that it is armed once the port is listening again.
+        if matches!(self.port_state, PortState::Faulty) {
+            let duration = self.config.announce_duration(&mut self.rng);
+            return actions![PortAction::ResetAnnounceReceiptTimer { duration }];
+        }
+
         if self
             .instance_state
             .with_ref(|state| state.default_ds.slave_only)
